@@ -66,7 +66,9 @@ Done == loop = "exited" /\ \A m \in awaited : mst[m] = "ret"
 DoneIn(n) == n.loop = "exited" /\ \A m \in n.awaited : n.mst[m] = "ret"
 
 R(k) == [k |-> k, must |-> {}, pan |-> "any", nil |-> "any"]
-Fail(m) == IF ucfg[m].kind = "error" THEN {"e:" \o m} ELSE IF ucfg[m].kind = "panic" THEN {"p:" \o m} ELSE {}
+\* a failure is a failure whatever it wraps: plain, io.EOF, context.Canceled, context.DeadlineExceeded
+ErrKinds == {"error", "eof", "canceled", "deadline"}
+Fail(m) == IF ucfg[m].kind \in ErrKinds THEN {"e:" \o m} ELSE IF ucfg[m].kind = "panic" THEN {"p:" \o m} ELSE {}
 Agg(n) == [k |-> "agg", must |-> UNION {Fail(m) : m \in n.collected},
            pan |-> IF \E m \in n.collected : ucfg[m].kind = "panic" THEN "t" ELSE "any", nil |-> "any"]
 
